@@ -46,6 +46,7 @@ func TestC20Enum(t *testing.T) {
 			rt.Repeat(map[string]func(*rapid.T){"step": func(rt *rapid.T) {
 				a, _ := pw.DrawAction(rt, p)
 				pw.Apply(a)
+				pw.DrainRecs()
 			}})
 			last, _ = pw.Apply(world.Action{Op: "scan", Flag: true})
 		})
